@@ -1,6 +1,14 @@
 (** C17 (concurrent half) — the concurrent union-find of union-find/src/concurrent/uf.rs.
     This file only pins statements and prints their assumptions.
 
+    TIER A LINK (second half of this file, the c17c_prog theorems): the atomic programs of find_impl / find /
+    merge / same_set are REGENERATED from uf.rs on every run as control-flow graphs
+    (gen/UFConcFacts.v: uf_prog), interpreted by UF/AtomProg.v; c17c_prog_step_is_model pins that one
+    atomic step of that interpreter is exactly one [tstep] of the hand model, and c17c_prog_inv /
+    c17c_prog_rep_min / c17c_prog_response_ok state the invariants for the interpreter of the
+    regenerated program directly. Changing in uf.rs which root is linked under which, the CAS
+    retry, the re-find in same_set, the root test or the splitting CAS breaks these obligations.
+
     The theorems are about the interleaving semantics UF/ConcModel.v: shared [parent : nat -> nat],
     any number of threads, every atomic step = one load or one cas of find_impl / merge / same_set,
     ALL interleavings, sequentially consistent. Not modelled (stress harness only): Acquire/Release
@@ -13,6 +21,7 @@
 From Coq Require Import List Arith Bool.
 Import ListNotations.
 Require Import Verif.UF.ConcModel Verif.UF.Conc.
+Require Import Verif.UF.AtomProg Verif.gen.UFConcFacts Verif.UF.AtomSim Verif.UF.AtomReach.
 
 (** in every reachable configuration parent[x] <= x and the partition (same root) is exactly the
     equivalence closure of the arguments of the merges that took effect (successful link CAS, or
@@ -106,3 +115,101 @@ Print Assumptions c17c_linearizable_refuted.
 Example c17c_case_example :
   ConcModel.check_case ([(5, 7); (5, 3); (9, 8)], 10, [0; 1; 2; 3; 4; 3; 6; 3; 8; 8]) = true.
 Proof. vm_compute. reflexivity. Qed.
+
+(* ========================================================================================== *)
+(** * Tier A link: the regenerated atomic programs (gen/UFConcFacts.v) *)
+From Coq Require Import String.
+Local Open Scope string_scope.
+
+(** invocation: running the local prefix of the regenerated `find` / `merge` / `same_set` stops
+    at the first load of find_impl, in a configuration that corresponds ([rel]) to the program
+    counter at which the hand model starts the operation *)
+Theorem c17c_prog_start_is_model : forall c,
+  exists stk, start uf_prog (op_fn c) (op_args c) = Some (AtMem stk) /\ rel c stk (hand_start c).
+Proof. exact sim_start. Qed.
+Print Assumptions c17c_prog_start_is_model.
+
+(** the hand model's step relation IS the interpreter of the regenerated program: from
+    corresponding configurations, one atomic step (memory access + local instructions up to the
+    next access) of the interpreter never gets stuck and is matched by [tstep] with the same new
+    parent array, the same response, and corresponding successor configurations *)
+Theorem c17c_prog_step_is_model : forall p c stk hc, rel c stk hc ->
+  match astep uf_prog p stk with
+  | Some (p', AtMem stk') =>
+      exists o, tstep p hc = Some o /\ o_par o = p' /\ o_res o = None /\ rel c stk' (o_pc o)
+  | Some (p', Returned vs) =>
+      exists o, tstep p hc = Some o /\ o_par o = p' /\ o_pc o = Idle /\
+                exists r, resp c vs = Some r /\ o_res o = Some r
+  | None => False
+  end.
+Proof. exact sim_step. Qed.
+Print Assumptions c17c_prog_step_is_model.
+
+(** every configuration reachable by any number of threads running the regenerated programs under
+    any interleaving has a reachable counterpart in the hand model: same parent array, same
+    history of responses, corresponding thread states *)
+Theorem c17c_prog_refines_model : forall cs, creachable uf_prog cs ->
+  exists s, ConcModel.reachable s /\ parent s = c_par cs /\ hist s = c_hist cs /\
+            forall t, trel (c_thr cs t) (thr s t).
+Proof. exact sim_reachable. Qed.
+Print Assumptions c17c_prog_refines_model.
+
+(** c17c_inv for the regenerated program: in every reachable configuration parent[x] <= x and the
+    partition is exactly the equivalence closure of the arguments of the merges that returned *)
+Theorem c17c_prog_inv : forall cs, creachable uf_prog cs ->
+  (forall i, c_par cs i <= i) /\
+  (forall x y, eqv (c_par cs) x y <-> conn (merges_of (c_hist cs)) x y).
+Proof. exact prog_inv. Qed.
+Print Assumptions c17c_prog_inv.
+
+(** c17c_rep_min for the regenerated program: the representative of every id exists, is connected
+    to it and is the least id of its class *)
+Theorem c17c_prog_rep_min : forall cs, creachable uf_prog cs -> forall x,
+  exists r, root_of (c_par cs) x r /\ conn (merges_of (c_hist cs)) x r /\
+            forall y, conn (merges_of (c_hist cs)) x y -> r <= y.
+Proof. exact prog_rep_min. Qed.
+Print Assumptions c17c_prog_rep_min.
+
+(** linearization-point facts for the regenerated program: the values it returns satisfy
+    [resp_ok] (see c17c_response_ok_partial) at the step that returns them *)
+Theorem c17c_prog_response_ok : forall cs t c stk p' vs, creachable uf_prog cs ->
+  c_thr cs t = Some (c, stk) -> astep uf_prog (c_par cs) stk = Some (p', Returned vs) ->
+  exists r, resp c vs = Some r /\ resp_ok (c_par cs) p' r.
+Proof. exact prog_response_ok. Qed.
+Print Assumptions c17c_prog_response_ok.
+
+(** U1 on the regenerated program (not only on the hand model): the schedule of
+    c17c_union_parent_stale_refuted, executed by the interpreter of gen/UFConcFacts.v, makes
+    merge(5,7) return parent 5 although 3 is the representative *)
+Theorem c17c_prog_union_parent_stale_refuted :
+  exists cs, creachable uf_prog cs /\
+    c_hist cs = [RMerge 5 7 5 7; RMerge 5 3 3 5] /\ c_par cs 5 = 3 /\ c_par cs 7 = 5.
+Proof. exact prog_union_parent_stale. Qed.
+Print Assumptions c17c_prog_union_parent_stale_refuted.
+
+(** the memory orderings atomic_int.rs passes for load / store / compare_exchange (regenerated;
+    the model is sequentially consistent - these are the orderings the SC assumption is about:
+    every load acquires, every successful write releases) *)
+Theorem c17c_prog_orderings :
+  uf_load_ordering = Acquire /\ uf_store_ordering = Release /\
+  uf_cas_success_ordering = AcqRel /\ uf_cas_failure_ordering = Acquire.
+Proof. exact prog_orderings. Qed.
+Print Assumptions c17c_prog_orderings.
+
+(** every operation demands capacity (largest argument + 1) from Buffer::with_access before its
+    body runs (regenerated [a_need]) *)
+Theorem c17c_prog_need : forall l r e,
+  e "l" = l -> e "r" = r ->
+  option_map (eval e) (a_need uf_merge_fn) = Some (Nat.max l r) /\
+  option_map (eval (eset e "max_elt" (Nat.max l r))) (a_need uf_same_set_fn) = Some (Nat.max l r) /\
+  option_map (eval e) (a_need uf_find_fn) = Some (e "elt") /\
+  nth_error (a_code uf_same_set_fn) 0 = Some (ISet "max_elt" (EMax (EVar "l") (EVar "r")) 1).
+Proof. exact prog_need. Qed.
+Print Assumptions c17c_prog_need.
+
+(** non-vacuity: a two-thread run of the regenerated program (merge(1,2) by thread 0 interleaved
+    with find(2) by thread 1) reaches a configuration with a non-trivial partition *)
+Example c17c_prog_run_example :
+  exists cs, cexec_all uf_prog cinit prog_example_schedule = Some cs /\
+    c_hist cs = [ConcModel.RFind 2 1; RMerge 1 2 1 2] /\ c_par cs 2 = 1.
+Proof. eexists. split; [vm_compute; reflexivity|]. split; reflexivity. Qed.
